@@ -1,6 +1,7 @@
 package main
 
 import (
+	"runtime/pprof"
 	"encoding/json"
 	"flag"
 	"fmt"
@@ -87,7 +88,13 @@ func main() {
 		params    = flag.String("params", "", "harness parameters name=val,name=val")
 		allPerLab = flag.Bool("all-cex", false, "keep checking a label after the first counterexample")
 	)
+	cpuprof := flag.String("cpuprofile", "", "write cpu profile")
 	flag.Parse()
+	if *cpuprof != "" {
+		f, _ := os.Create(*cpuprof)
+		pprof.StartCPUProfile(f)
+		defer pprof.StopCPUProfile()
+	}
 	t0 := time.Now()
 	cfg := &Config{Harness: *harness, AllocCap: *allocCap, MaxSteps: *maxSteps, Unwind: *unwind, MaxPaths: *maxPaths,
 		Workers: *workers, SolverKind: *solver, TimeoutMs: *timeoutMs, IntMode: *intMode, Samples: *samples, Trace: *trace,
@@ -217,6 +224,7 @@ func main() {
 	for _, a := range res.MissingReach {
 		fmt.Printf("  UNREACHED %s\n", a)
 	}
+	pprof.StopCPUProfile()
 	switch res.Status {
 	case "ok":
 		os.Exit(0)
